@@ -11,7 +11,7 @@ mkdir -p "$D/verif"
 cp -r /verif/lean/.lake "$D/verif/lean/.lake" 2>/dev/null || true
 sed -i "s|=> /repo|=> $D/repo|" "$D/verif/harness/go.mod"
 cp "$D/repo/go.sum" "$D/verif/harness/go.sum"
-export VERIF_REPO="$D/repo"
+export VERIF_REPO="$D/repo" ALARM_DIR=/tmp/reg_alarms
 cd "$D/verif"
 s=$1; shift
 "./$s" "$@"
